@@ -304,8 +304,11 @@ PROPS = {
     ),
     "C20": dict(
         proof_modules=["KsVerif.Proofs.C20"],
-        families=["progress", "sched.dump"],
-        rule="sched.dump: the real DumpStats and Inc* run as controlled goroutines; every interleaving at the "
+        families=["progress", "sched.dump", "progress.redis", "progress.amqp", "progress.http", "progress.kafka"],
+        rule="progress.<proto>: the conversations of the conv families dissected through readers that feed the progress counter as "
+             "the tap does (whole, byte by byte, in pieces of 1-700 bytes): the capture sizes of all messages - in emitted items and "
+             "still waiting in the matcher - plus what the two counters hold at the end must equal the bytes fed (Kafka: the sizes "
+             "of the emitted messages, when nothing waits); sched.dump: the real DumpStats and Inc* run as controlled goroutines; every interleaving at the "
              "yield points for small configurations (exhaustive DFS), seeded random schedules for up to 4 dumps x 12 "
              "increments; progress: every feed/current/reset sequence up to length 6 (quick) / 8 (thorough) over "
              "{feed 3, feed 10, current, reset}, plus seeded random sequences up to 40 operations over "
